@@ -45,7 +45,7 @@ CHECKS["C20"] = ("exploration",
  "DESIGN.md §4 C20")
 CHECKS["C05"] = ("exploration",
  "bounded-exhaustive enumeration of programs x aliased inputs x run histories with deep snapshot comparison",
- "Every derivation (<= 3 nodes, thorough 4) of a mutation-prone grammar (update, delete, add, sort, slice, accumulate, container constants, variables, ~55 forms), every builtin reported by `builtins` applied with a small argument set, and every corpus query is run on 10 inputs built with aliased substructure, spare capacity filled with sentinels, json.Number and *big.Int leaves, through a fixed set of histories of one *Code: drained three times on the same input object, on a fresh equal copy, abandoned after one output then another input then again, and two live iterators advanced alternately. After every step deep snapshots (including spare capacity) of the input, the variable value, every container constant of the instruction list and every value emitted so far are compared with their originals; output sequences and Marshal bytes of every run are compared with run 1. A run that no longer terminates is a violation too (watchdog).",
+ "Every derivation (<= 3 nodes, thorough 4) of a mutation-prone grammar (update, delete, add, sort, slice, accumulate, container constants, variables, ~55 forms), every builtin reported by `builtins` applied with a small argument set, and every corpus query is run on 10 inputs built with aliased substructure, spare capacity filled with sentinels, json.Number and *big.Int leaves, through a fixed set of histories of one *Code: drained three times on the same input object, on a fresh equal copy, abandoned after one output then another input then again, and two live iterators advanced alternately. After every step deep snapshots (including spare capacity) of the input, the variable value, every container constant of the instruction list and every value emitted so far are compared with their originals; output sequences and Marshal bytes of every run are compared with run 1. Cache histories: 10 regex programs taking pattern and flags from the input x every ordered pair of 90 inputs on one Code, second run compared with a fresh Code. A run that no longer terminates is a violation too (watchdog).",
  "Go map iteration order cannot be enumerated by a harness: dependence on it is re-sampled by the repeated runs only. Same-value writes are invisible here (C06).",
  "DESIGN.md §4 C05")
 CHECKS["C08"] = ("exploration",
